@@ -432,7 +432,7 @@ func objectDefineOwnProperty(obj *object, name string, descriptor property, thro
 		// (Maybe put into switch ...)
 		mode0 := prop.mode
 		if mode1&0o200 != 0 {
-			if descriptor.isDataDescriptor() {
+			if _, staysData := value1.(Value); staysData {
 				mode1 &= ^0o200 // Turn off "writable" missing
 				mode1 |= (mode0 & 0o100)
 			}
